@@ -22,20 +22,43 @@ ID_PARAMS = ("id_", "shape_id")
 
 
 # -- idiom recognisers -----------------------------------------------------------------------------------
+def _is_max(e, depth=0):
+    """e is max(...) directly, or a property / method of the repository (among the helpers reachable from the allocator) whose
+    every return is"""
+    if isinstance(e, ast.Call) and dotted(e.func) == "max":
+        return True
+    if isinstance(e, ast.IfExp):
+        return _is_max(e.body, depth) and (isinstance(e.orelse, ast.Constant) or _is_max(e.orelse, depth))
+    if depth < 3 and isinstance(e, (ast.Attribute, ast.Call)):
+        nm = (dotted(e.func if isinstance(e, ast.Call) else e) or "").split(".")[-1]
+        g = HELPERS.get(nm)
+        if g is not None:
+            rets = [r.value for r in ast.walk(g) if isinstance(r, ast.Return) and r.value is not None]
+            return bool(rets) and all(_is_max(r, depth + 1) or isinstance(r, ast.Constant) for r in rets) and any(_is_max(r, depth + 1) for r in rets)
+    return False
+
+
 def idiom_max_plus_one(fn):
+    from sa import paths as P_
+
+    val = P_.value_aliases(fn)
     for n in ast.walk(fn):
-        if isinstance(n, ast.BinOp) and isinstance(n.op, ast.Add) and isinstance(n.right, ast.Constant) and n.right.value == 1 \
-                and isinstance(n.left, ast.Call) and dotted(n.left.func) == "max":
-            return "max(P)+1"
+        if isinstance(n, ast.BinOp) and isinstance(n.op, ast.Add) and isinstance(n.right, ast.Constant) and n.right.value == 1:
+            left = n.left
+            if isinstance(left, ast.Name) and left.id in val:
+                left = val[left.id]
+            if _is_max(left):
+                return "max(P)+1"
     return None
 
 
 def idiom_first_gap(fn):
     for n in ast.walk(fn):
-        if isinstance(n, ast.For) and isinstance(n.iter, ast.Call) and dotted(n.iter.func) == "range" and isinstance(n.target, ast.Name):
+        if isinstance(n, ast.For) and isinstance(n.iter, ast.Call) and dotted(n.iter.func) in ("range", "itertools.count", "count") \
+                and isinstance(n.target, ast.Name):
             v = n.target.id
             args = n.iter.args
-            asc = len(args) == 2 and isinstance(args[0], ast.Constant) and args[0].value == 1
+            asc = dotted(n.iter.func) == "range" and len(args) == 2 and isinstance(args[0], ast.Constant) and args[0].value == 1
             for c in ast.walk(n):
                 if isinstance(c, ast.If) and isinstance(c.test, ast.Compare) and len(c.test.ops) == 1 \
                         and isinstance(c.test.ops[0], ast.NotIn) and any(isinstance(s, ast.Return) for s in c.body):
@@ -226,9 +249,20 @@ def idiom_len_plus_one(fn):
 
 
 def idiom_counter(fn):
+    from sa import paths as P_
+    from sa.poly import Poly, of_expr
+
     for n in ast.walk(fn):
         if isinstance(n, ast.AugAssign) and isinstance(n.op, ast.Add) and isinstance(n.value, ast.Constant) and n.value.value == 1:
             return "cached counter += 1"
+    # the same written out: `nxt = self.F + 1; self.F = nxt` (through single-assignment locals)
+    val = P_.value_aliases(fn)
+    for n in ast.walk(fn):
+        if isinstance(n, ast.Assign) and len(n.targets) == 1 and isinstance(n.targets[0], ast.Attribute) and dotted(n.targets[0]):
+            t = dotted(n.targets[0])
+            v = ast.parse(P_.full(n.value, val), mode="eval").body
+            if of_expr(v) == Poly.sym(t) + Poly.const(1):
+                return "cached counter += 1"
     return None
 
 
